@@ -33,24 +33,26 @@ Theorem C16_match_expr_dec : forall p e,
 Proof. exact match_e_dec. Qed.
 Print Assumptions C16_match_expr_dec.
 
-(* The matcher as /repo implements it (impl_quirks) does NOT decide MatchRel ... *)
+(* The statement matcher as /repo implements it (impl_quirks) does NOT decide MatchRel: call patterns
+   ignore their arguments (open finding F-C16-2) ... *)
 Theorem C16_match_impl_refuted :
   exists pats blk j, match_stmts impl_quirks pats blk = Some j /\ ~ MatchRel pats blk j.
 Proof. exact impl_differs_from_spec. Qed.
 Print Assumptions C16_match_impl_refuted.
 
-(* ... except on patterns without `stride(x, 0)`, without non-hole call arguments and without `_` in a
-   configuration-write pattern (and IR without a configuration literally named `_`) *)
+(* ... it does on patterns whose call patterns have only hole arguments (at any nesting depth) *)
 Theorem C16_match_impl_partial : forall pats blk r,
-  forallb benign_s pats = true -> forallb no_underscore_cfg blk = true ->
+  forallb benign_s pats = true ->
   (match_stmts impl_quirks pats blk = Some r <-> MatchRel pats blk r).
 Proof. exact impl_decides_matchrel. Qed.
 Print Assumptions C16_match_impl_partial.
 
-Theorem C16_match_expr_impl_partial : forall p e,
-  benign_e p = true -> (match_e impl_quirks e p = true <-> MatchE p e).
+(* for expressions the implementation's matcher decides MatchE without any side condition
+   (since the repair of `stride(x, 0)`, /repo 80472758) *)
+Theorem C16_match_expr_impl : forall p e,
+  match_e impl_quirks e p = true <-> MatchE p e.
 Proof. exact impl_decides_matche. Qed.
-Print Assumptions C16_match_expr_impl_partial.
+Print Assumptions C16_match_expr_impl.
 
 (* ================================================================== *)
 (** * 2. find-all lists exactly the matching positions, once each, in program order *)
